@@ -150,6 +150,14 @@ func ruleCommitTally(c *Ctx) {
 				guardRe("block id equals the commit's", `^true\(\w+\.Equals\(`+C+`\.BlockID\)\)$`))
 		}
 		c.guards(f, acc.add, key, 0, gs...)
+		// full verification (the one block validation uses for LastCommit) checks *every* signature that is
+		// present, also those for nil: moving on to the next slot is only possible for an absent slot or
+		// behind the signature check (a nil vote's timestamp feeds the median block time)
+		if name == "ValidatorSet.VerifyCommit" {
+			c.loopItemGuard(f, fk+" :: next signature slot", guardAny("slot is absent, or its signature verified",
+				guardRe("absent", `^true\(`+sig+`\.Absent\(\)\)$`),
+				guardRe("verified", `^true\(`+V+`\.PubKey\.VerifySignature\(`+C+`\.VoteSignBytes\(`+q(chain)+`, `+idx+`\), `+sig+`\.Signature\)\)$`)))
+		}
 
 		// threshold
 		a := *acc
